@@ -1,6 +1,7 @@
 import YtkModel.Wire
 import YtkModel.PipelineData
 import YtkDriver.HeapScript
+import YtkDriver.TplFuncsOps
 open Lean
 
 namespace Ytk.C13
@@ -174,6 +175,9 @@ def handle : Wire.Handler := fun op a => do
   | "heapScript" =>
     -- a script of heap-level operations on an explicit heap (YtkDriver/HeapScript.lean)
     HeapScript.run a
+  | "tplFuncs" =>
+    -- the template functions of pipeline/template_engine_funcs.go (YtkDriver/TplFuncsOps.lean)
+    TplFuncsOps.run a
   | _ => throw s!"C13: unknown op {op}"
 
 end Ytk.C13
